@@ -269,7 +269,7 @@ Proof.
   apply triple_ret. auto.
 Qed.
 
-Lemma sec_connect_triple c uid v5 : triple TJ (sec_connect p c uid v5) (fun _ => TJ) TI.
+Lemma sec_connect_triple c uid io v5 : triple TJ (sec_connect p c uid io v5) (fun _ => TJ) TI.
 Proof.
   unfold sec_connect.
   eapply triple_bind; [apply triple_emit_TJ; right; reflexivity|]. intros ?.
@@ -406,7 +406,7 @@ Proof.
   assert (H : triple NC
             (bind (x224_connect p false tls_start cssp_run c) (fun sel =>
              bind (mcs_connect p ber_parse c sel) (fun us =>
-             bind (sec_connect p c (fst us) (rdp_v5 (snd us))) (fun _ => ret us))))
+             bind (sec_connect p c (fst us) (global_id (snd us)) (rdp_v5 (snd us))) (fun _ => ret us))))
             (fun _ _ => False) NC).
   { eapply triple_bind; [apply x224_connect_refuses; assumption|]. intros ? s Hs. contradiction. }
   specialize (H (mkSt cs [] false 0) (conj eq_refl eq_refl)).
